@@ -99,6 +99,10 @@ where
     // only allow each counter to be zeroed once per trigger_events call
     counter_zeroed_once: (bool, bool),
     framework_start: T,
+    #[cfg(feature = "verif")]
+    verif_log: Vec<crate::verif::VerifStep>,
+    #[cfg(feature = "verif")]
+    verif_ext: usize,
 }
 
 impl<M, R, T> Framework<M, R, T>
@@ -169,6 +173,10 @@ where
             normal_sent_packets: 0,
             signal_pending: None,
             counter_zeroed_once: (false, false),
+            #[cfg(feature = "verif")]
+            verif_log: Vec::new(),
+            #[cfg(feature = "verif")]
+            verif_ext: 0,
         };
 
         for (runtime, machine) in s.runtime.iter_mut().zip(s.machines.as_ref().iter()) {
@@ -208,6 +216,9 @@ where
         events: &[TriggerEvent],
         current_time: T,
     ) -> impl Iterator<Item = &TriggerAction<T>> {
+        #[cfg(feature = "verif")]
+        self.verif_begin_call();
+
         // reset all actions
         self.actions.fill(None);
 
@@ -227,6 +238,8 @@ where
         // trigger_events for sake of batching remaining a safety mechanism for
         // integrators (NOTE how self.signal_pending is consumed here with
         // take())
+        #[cfg(feature = "verif")]
+        self.verif_begin_signal_round();
         if let Some(signal) = self.signal_pending.take() {
             // keep track of if we should exclude a machine
             let excluded = match signal {
@@ -260,6 +273,8 @@ where
     }
 
     fn process_event(&mut self, e: &TriggerEvent) {
+        #[cfg(feature = "verif")]
+        self.verif_begin_event();
         match e {
             TriggerEvent::NormalRecv => {
                 // no special accounting needed
@@ -370,6 +385,8 @@ where
     }
 
     fn transition(&mut self, mi: usize, event: Event) -> StateChange {
+        #[cfg(feature = "verif")]
+        self.verif_log_transition(mi, event);
         // a machine in end state cannot transition
         if self.runtime[mi].current_state == STATE_END {
             return StateChange::Unchanged;
@@ -383,6 +400,8 @@ where
             state.sample_state(event, &mut self.rng)
         };
 
+        #[cfg(feature = "verif")]
+        self.verif_log_target(mi, next_state);
         // if no next state on event, done
         let Some(next_state) = next_state else {
             return StateChange::Unchanged;
@@ -521,6 +540,9 @@ where
     }
 
     fn schedule_action(&mut self, mi: usize, state: usize) {
+        #[cfg(feature = "verif")]
+        self.verif_log
+            .push(crate::verif::VerifStep::Schedule { machine: mi, state });
         let index = MachineId(mi);
         let action = self.machines.as_ref()[mi].states[state].action;
 
@@ -566,6 +588,9 @@ where
         if let Some(action) = self.machines.as_ref()[mi].states[cs].action {
             if self.runtime[mi].state_limit == 0 && action.has_limit() {
                 // take no action and trigger limit reached
+                #[cfg(feature = "verif")]
+                self.verif_log
+                    .push(crate::verif::VerifStep::Withdraw { machine: mi });
                 self.actions[mi] = None;
                 // next, we trigger internally event LimitReached
                 self.transition(mi, Event::LimitReached);
@@ -680,6 +705,76 @@ where
 
         // only state-limit left to consider
         runtime.state_limit > 0
+    }
+}
+
+#[cfg(feature = "verif")]
+impl<M, R, T> Framework<M, R, T>
+where
+    M: AsRef<[Machine]>,
+    R: RngCore,
+    T: crate::time::Instant,
+{
+    fn verif_begin_call(&mut self) {
+        self.verif_log.clear();
+        self.verif_ext = 0;
+    }
+
+    fn verif_begin_event(&mut self) {
+        self.verif_ext += 1;
+    }
+
+    fn verif_begin_signal_round(&mut self) {
+        self.verif_ext = usize::MAX;
+    }
+
+    fn verif_log_transition(&mut self, mi: usize, event: Event) {
+        self.verif_log.push(crate::verif::VerifStep::Transition {
+            ext: self.verif_ext,
+            machine: mi,
+            event,
+            state_before: self.runtime[mi].current_state,
+        });
+    }
+
+    fn verif_log_target(&mut self, mi: usize, target: Option<usize>) {
+        self.verif_log
+            .push(crate::verif::VerifStep::Target { machine: mi, target });
+    }
+
+    /// The internal steps taken by the most recent call to
+    /// [`Self::trigger_events`], in order.
+    pub fn verif_steps(&self) -> &[crate::verif::VerifStep] {
+        &self.verif_log
+    }
+
+    /// A read-only copy of the runtime state of the framework.
+    pub fn verif_snapshot(&self) -> crate::verif::VerifSnapshot<T> {
+        crate::verif::VerifSnapshot {
+            machines: self
+                .runtime
+                .iter()
+                .map(|r| crate::verif::VerifMachine {
+                    current_state: r.current_state,
+                    state_limit: r.state_limit,
+                    padding_sent: r.padding_sent,
+                    normal_sent: r.normal_sent,
+                    blocking_duration: r.blocking_duration,
+                    counter_a: r.counter_a,
+                    counter_b: r.counter_b,
+                })
+                .collect(),
+            normal_sent_packets: self.normal_sent_packets,
+            padding_sent_packets: self.padding_sent_packets,
+            blocking_duration: self.blocking_duration,
+            blocking_started: self.blocking_started,
+            blocking_active: self.blocking_active,
+            signal_pending: match self.signal_pending {
+                None => crate::verif::VerifSignal::None,
+                Some(SignalTarget::All) => crate::verif::VerifSignal::All,
+                Some(SignalTarget::AllExcept(mi)) => crate::verif::VerifSignal::AllExcept(mi),
+            },
+        }
     }
 }
 
